@@ -7,14 +7,14 @@ PROP = {
         "Verif.Properties.C30.terminates",
         "Verif.Properties.C30.uncharged_loop_never_stops",
         "Verif.Properties.C30.depth",
-        "Verif.Properties.C30.depth_engines_agree_partial",
+        "Verif.Properties.C30.depth_engines_agree",
     ],
     "gen": [["vtool", "gen-meterfacts"]],
     "tool_files": ["tool_cachefacts.go", "tool_meterfacts.go"],
     "streams": [
         {"name": "bounded", "driver": "drv_bounded",
          "quick": {"n": 26}, "thorough": {"n": 260, "seeds": 2},
-         "timeout": {"quick": 1500, "thorough": 3400}},
+         "timeout": {"quick": 5400, "thorough": 14000}},   # (upper limits: a hang verdict is re-confirmed alone with 3x the bound)
     ],
     "exhaustive": False,
     "technique": "Lean 4 proof over an abstract metered machine + fact extraction (go/types) of the metering calls on every loop "
@@ -27,26 +27,35 @@ PROP = {
                   "such machine, state and finite limit L the metered run stops within (c+1)*(L+1) steps with ok, a user error or "
                   "the limit error (fuel derived, not assumed); uncharged_loop_never_stops / charged_loop_hits_limit — the discipline "
                   "is necessary and sufficient on the one-state loop; depth / depth_never_exceeds_limit — the call-depth counter "
-                  "rejects exactly the recursion deeper than the limit and never exceeds it; depth_checks_agree, "
-                  "depth_engines_agree_partial — interpreter and VM checks agree except at exactly `limit` frames "
-                  "(vm_depth_off_by_one_witness) and under a configured limit (vm_ignores_configured_limit_witness): two known "
-                  "findings. FX: gen-meterfacts — the Go `for` loop of VisitWhileStatement charges Loop + Statement, "
+                  "rejects exactly the recursion deeper than the limit and never exceeds it; depth_checks_agree; "
+                  "depth_engines_agree — for every configured runtime.Config.StackDepthLimit and every n, recursion n deep "
+                  "below the entry point succeeds in the interpreter iff it succeeds in the VM, iff n <= the effective limit "
+                  "(full, after the fixes 4e6bf8c: the VM environment applies the configured limit, and bc0b586: its limit "
+                  "is the configured one + 1 for the entry point's frame; vm_default_limit_ignores_configuration_witness / "
+                  "vm_same_limit_off_by_one_witness show on the model why each fix is needed). "
+                  "FX: gen-meterfacts — the Go `for` loop of VisitWhileStatement charges Loop + Statement, "
                   "visitForStatementBody (per element) charges Loop, every statement / invocation charges; the compiler emits "
                   "InstructionLoop after the test jump and before body and back-edge in both loop forms, VM.run dispatches it to "
                   "opLoop which charges Loop, invokeFunction charges FunctionInvocation; both depth checks raise "
-                  "CallStackLimitExceededError; meterfacts_ok (decide) = pinned + every cycle charged. CC (supporting exploration): "
+                  "CallStackLimitExceededError; the statements of newStackDepthLimiter / vmStackDepthLimit (how each engine derives "
+                  "its limit from the configuration: the model's interpEffectiveLimit / vmEffectiveLimit) and newVMConfig's use of it; meterfacts_ok (decide) = pinned + every cycle charged. CC (supporting exploration): "
                   "stream bounded runs 26 families (endless while/for, loops over growing arrays / dictionaries / strings, doubling, "
                   "squaring big integers, mutual / closure / method recursion, deep value construction followed by printing, "
                   "export, type comparison, storage) in a fresh process each, both engines, under computation limit x memory "
                   "limit x a load-calibrated wall-clock bound (>= 240 s, 40x a timed reference run scaled by the limit) x 12 GB address space; violation = no stop within the bound, internal error, escaped "
-                  "panic or crash; depth programs at limit-3..limit+5 under default and configured limits in both engines against "
-                  "the model.",
+                  "panic or crash; depth programs at limit-3..limit+5 under default and configured limits, as function / method / closure / "
+                  "mutual recursion and inside a transaction, in both engines against the model. A hang verdict (and a child "
+                  "killed from outside) is reported only after the operation was re-run alone with 3x the bound.",
     "level_note": "Partial: that the real evaluators are instances of the disciplined machine is established only for the listed "
                   "loop / statement / invocation paths by the fact table (no model of the evaluator itself); Go-runtime stack "
                   "exhaustion by recursive Go code over deep values and built-ins with internal unmetered loops are outside the "
                   "theorem and reached only by the stream. Memory limits are enforced by the host's gauge (the harness's "
                   "recording gauge here).",
-    "assumptions": ["the computation gauge's limit is finite and the memory gauge's limit is finite (hosts set both)",
+    "assumptions": ["call depth: the engines count the same thing only for invocations of Cadence functions — the interpreter "
+                    "counts every invocation expression (also of native functions, and before the arguments are evaluated: "
+                    "f(g(h(x))) is 3 deep), the VM counts call frames of compiled functions; the theorem and the stream are about "
+                    "nested invocations of Cadence functions",
+                    "the computation gauge's limit is finite and the memory gauge's limit is finite (hosts set both)",
                     "between two charges the evaluators execute straight-line Go code (bounded by the program size)"],
     "trusted_base": ["pinned expectation Verif.Spec.MeterFacts", "fact extractor cmd/vtool/tool_meterfacts.go (go/packages + go/types)",
                      "harness/internal/meterx, harness/internal/host", "driver Drv/Bounded.lean"],
